@@ -235,6 +235,15 @@ def validate_taxonomy_tree(
                 else:
                     child_to_parent[child_level][this_child] = this_parent
 
+    # check that no parent lists the same child more than once
+    for parent_level in hierarchy[:-1]:
+        for this_parent in taxonomy_tree[parent_level].keys():
+            child_list = list(taxonomy_tree[parent_level][this_parent])
+            if len(set(child_list)) != len(child_list):
+                raise RuntimeError(
+                    f"{parent_level}:{this_parent} lists a node "
+                    "more than once as a child")
+
     # check that all rows are unique
     leaf_level = taxonomy_tree['hierarchy'][-1]
     all_rows = []
